@@ -339,6 +339,13 @@ def c02_restart_family(tier):
     for victim in ['src', 'mid', 'snk']:
         out.append(with_faults(scn(f'restart-chain3/{victim}', ch()), ['kill'], [victim], delays, when))
 
+    # the victim's in-flight output is NOT lost with it (it had already left the process): stale frames of the dead
+    # incarnation arrive while / after the new one comes up
+    for victim in ['src', 'mid']:
+        s = with_faults(scn(f'restart-chain3-stale/{victim}', ch()), ['kill'], [victim], delays, when)
+        s['faults']['drop_inflight'] = False
+        out.append(s)
+
     rj = lambda: rejoin(n, 2, ['pass', 'pass'], ['b1', 'b2;main>other'], required=False, period=60)
 
     for victim in ['src', 'b1', 'snk'] if full else ['b1']:
